@@ -7,9 +7,6 @@ From Sdfx Require Import Sys.SysLang Sys.Lockset Sys.Sched Sys.PoolProg Sys.Sche
 Import ListNotations.
 Local Open Scope string_scope.
 
-Lemma layer_program : strip layerYZ_Evaluate = layer_prog batchSize.
-Proof. reflexivity. Qed.
-
 Lemma routines_program : strip evalRoutines = routines_prog.
 Proof. reflexivity. Qed.
 
@@ -21,7 +18,7 @@ Lemma source_layer_is_batch_plan (Pt : Type) (points : list Pt) :
   let s := lexec Pt points (strip layerYZ_Evaluate) (linit Pt) in
   l_sent Pt s = batch_plan Pt batchSize points /\ l_adds Pt s = List.length (l_sent Pt s) /\
   l_early Pt s = false /\ l_waited Pt s = true /\ l_req Pt s = true.
-Proof. rewrite layer_program. apply layer_program_is_batch_plan. Qed.
+Proof. unfold batchSize. layer_like ltac:(eval vm_compute in batchSize). Qed.
 
 (* evalRoutines starts one routine per CPU, each running the program of SchedProg section 2 *)
 Lemma source_routines : strip evalRoutines = [ForCPU [Go worker_prog]] /\ forall ncpu, go_count ncpu (strip evalRoutines) = ncpu.
